@@ -60,7 +60,9 @@ BOUND = ('values: 60 fixed (clean ASCII/Latin-1/BMP/astral text, CR|LF|NUL|CRLF 
          'lone surrogates: 10 values (U+DC80, U+DCE9, U+DCFF, U+D800, U+DFFF alone and inside ASCII / non-ASCII text, '
          'escape sequences that form valid UTF-8 such as U+DCC3 U+DCA9) x every entry point x every observation mode x '
          '2 names, pairs (valid value, surrogate value) in both orders over {setitem, append, setdefault, ctor}^2 on one '
-         'name x every mode, through set_cookie, and 1500 (thorough 20000) seeded random sequences mixing them in')
+         'name x every mode, through set_cookie, and 1500 (thorough 20000) seeded random sequences mixing them in; '
+         'redirect(location[, code]) with 14 locations (relative, absolute, other scheme, CR / LF / NUL inside, non-ASCII) x '
+         '{default, 301, 303} x request scheme {http, https}: no control character in any emitted header')
 NONTRIVIAL_RULE = ('distinct (mode, status, ctor, ops); non-trivial = at least one operation offers a control-character '
                    'value, a non-ASCII value, a second value for a name, or the status has a header blacklist')
 
@@ -275,6 +277,18 @@ def gen_cases(tier, seed):
             steps.append((rnd.choice(ents), rnd.choice(NAMES[:6] + ['Vary', 'X-Test', 'X-Test']), v))
         st = rnd.choice(STATUSES) if mode != 'error' else rnd.choice([404, 500, 304, 204, 405])
         yield _case(mode, st, steps)
+    # R: the framework's own helper that sets a header from application data: redirect(location) -> Location
+    for loc in REDIRECTS:
+        for code in (None, 301, 303):
+            for scheme in ('http', 'https'):
+                c = _case('redirect', 200, [])
+                c.update(location=loc, code=code, scheme=scheme)
+                yield c
+
+
+REDIRECTS = ['/x', 'next?a=1', 'https://example.org/x', 'https://example.org/x\r\nSet-Cookie: sid=evil', 'mailto:a@b\r\nX: y',
+             'http://example.org/\nX: y', '/a\0b', 'x\ry', '/p\r\nX-Evil: 1', 'custom:\r\n\r\n<html>', 'https://e/\0', '//other/\r\nA: b',
+             '/caf\u00e9', 'https://example.org/\u20ac']
 
 
 # ---------------------------------------------------------------------------------------------
@@ -571,6 +585,23 @@ def run_case(case):
 
     app = ombott.Ombott()
     crash = {}
+    if mode == 'redirect':
+        @app.route('/h')
+        def r():
+            ombott.redirect(case['location'], case['code']) if case['code'] else ombott.redirect(case['location'])
+        env = make_environ('/h')
+        env['wsgi.url_scheme'] = case['scheme']
+        # redirect() works on the default application's request / response objects
+        import ombott.ombott as core
+        G = core.Globals
+        saved = (G.request, G.response)
+        G.request, G.response = app.request, app.response
+        try:
+            res = serve(app, env)
+        finally:
+            G.request, G.response = saved
+        # a refused location (500) is fine; what must not happen is a control character in an emitted header (H1)
+        return check_emitted(case, model, res.headers, False, None)
 
     @app.route('/h')
     def h():
